@@ -14,6 +14,15 @@ sys.path.insert(0, HERE)
 from mc import triage      # noqa: E402
 
 DESCRIPTIONS = {
+    'C03': {
+        'projection-arguments-evaluated-at-call-time':
+            'The fixed arguments of a projection are kept as expressions and evaluated when the last hole is filled (and again '
+            'on every call): g::f(a;);a::2;g(5) uses a=2, a fixed argument with a side effect runs on every call, and a '
+            'function that returns a projection of its own parameter ({f(x;)}) cannot be called. By substitution the '
+            'projection stands for the body with the value the argument had when it was supplied. Repair not small: '
+            'stored arguments are syntax (the interpreter evaluates every argument at the final call and has no way to '
+            'mark an argument as already evaluated - see also the C09 finding about values that are resolved again).',
+    },
     'C05': {
         'torch-power-rounding': 'PyTorch backend: a compiled sub-expression of Python numbers ((0+0.5), (0.5*a) with a '
                                 'Python float a) stays a double, the interpreter computes the same sub-expression as a float32 '
